@@ -435,6 +435,9 @@ class SimS3:
 
     def put_object(self, **kwargs):
         def effect(payload, rec):
+            if kwargs.get('ChecksumCRC32') not in (None, crc32_b64(payload)):
+                raise client_error('BadDigest', 'the CRC32 you specified did not match the '
+                                   'calculated checksum', 'PutObject')
             self.objects[(kwargs['Bucket'], kwargs['Key'])] = payload
             rec['size'] = len(payload)
             self.world.on_object_written(kwargs['Key'], rec)
@@ -562,6 +565,12 @@ class SimS3:
                     raise client_error('EntityTooSmall', 'part %s too small' % pn,
                                        'CompleteMultipartUpload')
                 blob += stored['data']
+            if kwargs.get('ChecksumCRC32') not in (None, crc32_b64(bytes(blob))):
+                raise client_error('BadDigest', 'the full object CRC32 you specified did not '
+                                   'match the calculated checksum', 'CompleteMultipartUpload')
+            if kwargs.get('MpuObjectSize') not in (None, len(blob)):
+                raise client_error('InvalidRequest', 'MpuObjectSize does not match the object',
+                                   'CompleteMultipartUpload')
             u['state'] = 'completed'
             u['completes'] += 1
             u['completed_parts'] = [(p['PartNumber'], len(u['parts'][p['PartNumber']]['data']))
